@@ -1520,7 +1520,9 @@ func (m *Monitor) checkC10(g *Gen, w []string, out string, b, a *snapshot) {
 						m.report(g, "batch-not-highest-fees", fmt.Sprintf("chain %s batch %s/%d min fee %s but transfer %d with fee %s left behind", c, nb.extToken, nb.nonce, minFee, p.id, p.fee))
 					}
 					if len(nb.txs) < 100 {
-						m.report(g, "batch-leaves-transfers-behind", fmt.Sprintf("chain %s batch %s/%d has %d transfers, transfer %d unselected", c, nb.extToken, nb.nonce, len(nb.txs), p.id))
+						// not a violation: the property bounds the size from above and fixes the choice (highest fees first),
+						// it does not ask for a full batch
+						g.stats["C10:batch-below-100-left-transfers-behind"]++
 					}
 				}
 			}
